@@ -32,7 +32,6 @@ def St.toNat : St → Nat | .registered => 0 | .plotting => 1 | .ready => 2 | .m
 /-- one workspace: the state field, membership in the four per-state maps (as the code
     maintains them: `Delete(old)`, `Set(new)`, `ws.state = new`), the all-states map, `using` -/
 structure WS where
-  sid : Nat                     -- = ordinal; smaller ordinal = higher plotting priority
   field : St
   idx : List St                 -- the per-state maps that contain this space
   inAll : Bool
@@ -59,7 +58,8 @@ inductive Pc
   deriving DecidableEq, Repr
 
 structure K where
-  ws : List WS := []
+  n : Nat := 0                    -- spaces are named by their ordinal 0 … n-1 (smaller = higher plotting priority)
+  ws : Nat → Option WS := fun _ => none
   list : List Nat := []           -- `workSpaceList` (spaces in use, in order)
   chan : List Req := []           -- `newQueuedWorkSpaceCh`, FIFO, capacity `Facts.plotterMaxChanSize`
   queue : List Req := []          -- the plotter's priority queue
@@ -68,7 +68,6 @@ structure K where
   quitting : Bool := false        -- `quit` is closed and the plotter has not returned yet
   panicked : Bool := false        -- the plotter goroutine panicked (process death)
   deleted : List Nat := []        -- spaces whose files were erased (in order)
-  deriving Repr
 
 def K.started (k : K) : Bool := k.pc != .exited
 def K.running (k : K) : Option Nat := match k.pc with | .plotting s => some s | _ => none
@@ -81,8 +80,8 @@ inductive Act | plot | mine | stop | remove | delete
 
 def chanCap : Nat := Facts.plotterMaxChanSize
 
-def find (k : K) (sid : Nat) : Option WS := k.ws.find? (·.sid == sid)
-def setWS (k : K) (sid : Nat) (f : WS → WS) : K := { k with ws := k.ws.map (fun w => if w.sid == sid then f w else w) }
+def find (k : K) (sid : Nat) : Option WS := k.ws sid
+def setWS (k : K) (sid : Nat) (f : WS → WS) : K := { k with ws := fun s => if s = sid then (k.ws s).map f else k.ws s }
 
 /-- `changeState(old, new)` / the inline moves of MineWS, StopWS -/
 def move (w : WS) (old new : St) : WS := { w with idx := (w.idx.filter (· != old)) ++ [new], field := new }
@@ -115,14 +114,14 @@ def act (k : K) (a : Act) (sid : Nat) : K × Except Err Unit :=
       else if inState w .plotting then
         match k.popped with
         | some r => if r.sid != sid then (k, .error .notPlotting) else (setPoppedWM k false, .ok ())
-        | none => (k, .error .notPlotting)
+        | none => ({ k with panicked := true }, .error .notPlotting)     -- `PoppedItem()` = nil is dereferenced
       else (k, .ok ())
     | .mine =>
       if inState w .registered then send k ⟨sid, true, w.epoch⟩
       else if inState w .plotting then
         match k.popped with
         | some r => if r.sid != sid then (k, .error .notPlotting) else (setPoppedWM k true, .ok ())
-        | none => (k, .error .notPlotting)
+        | none => ({ k with panicked := true }, .error .notPlotting)
       else if inState w .ready then (setWS k sid (fun w => move w .ready .mining), .ok ())
       else (k, .ok ())
     | .stop =>
@@ -132,7 +131,7 @@ def act (k : K) (a : Act) (sid : Nat) : K × Except Err Unit :=
         | some r =>
           if r.sid != sid then (k, .error .notPlotting)
           else (setPoppedWM k false, .ok ())     -- + `ws.StopPlot()`: see `micro`
-        | none => (k, .error .notPlotting)
+        | none => ({ k with panicked := true }, .error .notPlotting)
       else if inState w .mining then (setWS k sid (fun w => move w .mining .ready), .ok ())
       else (k, .ok ())
     | .remove =>
@@ -300,7 +299,8 @@ def bulk (k : K) (a : Act) (flags : Nat) : K × List (Nat × Except Err Unit) :=
     | none => acc) (k, [])
 
 def initK (n : Nat) : K :=
-  { ws := (List.range n).map (fun i => ⟨i, .registered, [.registered], true, true, false, true, 0⟩),
+  { n := n,
+    ws := fun i => if i < n then some ⟨.registered, [.registered], true, true, false, true, 0⟩ else none,
     list := List.range n }
 
 end MassVerif.Keeper
